@@ -3,6 +3,7 @@ package checks
 import (
 	"bytes"
 	"crypto/sha256"
+	"encoding/hex"
 	"encoding/json"
 	"fmt"
 	"os"
@@ -155,6 +156,28 @@ func genConcTask(r *sim.Rng) ConcTask {
 		w := genL2WCase(r, "src", false)
 		small(w, lim)
 		return ConcTask{W: w}
+	}
+	if r.Chance(1, 8) {
+		// a reader task that must fail: a classic .lzma stream whose header
+		// states a wrong size (the error a task reports - its text included -
+		// is part of "the result it produces when run alone")
+		n := r.Range(20, 400)
+		w := &WCase{Format: "lzma", LZ: &LZCfg{LC: 3, PB: 2, DictCap: 4096, BufSize: 4096, SizeInHeader: true, Size: int64(n), EOSMarker: r.Bool()},
+			Payload: sim.Payload{Kind: "text", N: n, Seed: r.Uint64()}, Ops: []Op{{K: "w", N: n}, {K: "c"}}}
+		b := (&StreamRecipe{Kind: "lib", W: w}).Build()
+		if b.Err == nil && len(b.Stream) > 13 {
+			img := append([]byte(nil), b.Stream...)
+			lie := uint64(n + sim.Pick(r, []int{-1, 1, 7, 100, 5000})*r.Range(1, 3))
+			if int64(lie) < 0 {
+				lie = 0
+			}
+			for i := 0; i < 8; i++ {
+				img[5+i] = byte(lie >> (8 * uint(i)))
+			}
+			rc := &RCase{Src: genSrcPlan(r), RDict: 4096, Reads: []int{sim.Pick(r, []int{1, 64, 500})}}
+			rc.Stream = StreamRecipe{Kind: "literal", Hex: hex.EncodeToString(img), ContentHex: hex.EncodeToString(b.Content), Format: "lzma"}
+			return ConcTask{R: rc}
+		}
 	}
 	// reader task
 	c := &RCase{Src: genSrcPlan(r), RDict: 4096}
